@@ -260,9 +260,9 @@ def run(ctx):
             op = cr.m["op"]
             det = dict(case={k: v for k, v in cr.m.items() if k not in ("args", "exp")}, line=cr.line)
             if cr.crash is not None:
+                # a process death inside a single operation is decided by the module that owns the operation
+                # (value oracle) and by C02 (memory safety); here it only means the routes could not be compared
                 ncrash += 1
-                # a crash for arguments the owning module's reference accepts
-                ctx.violation("%s:crash:%s" % (op, cr.crash.kind()), "%s died in %s: %s" % (op, det["case"], cr.crash.kind()), dict(det, stderr=cr.crash.stderr[-2500:]))
                 continue
             if cr.timeout:
                 ctx.inconc("timeout in %s" % cr.line[:200])
